@@ -112,7 +112,8 @@ class C12(InputProp):
                 if h._find_namespace(rem.split(":")[0])[0]:
                     continue
             tail = " ".join(rem.split())
-            ref_partial = (tail[:1].upper() + tail[1:]) if cap else tail
+            # MediaWiki leaves a first letter whose capital is not one letter (ß -> SS) as it is
+            ref_partial = (tail[:1].upper() + tail[1:]) if cap and len(tail[:1].upper()) == 1 else tail
             ref_full = (local + ":" if local else "") + ref_partial
             ref = (nsid, ref_partial, ref_full)
             for rsk, rs in rem_spellings(rem).items():
